@@ -111,15 +111,15 @@ package smtp
 
 //@ contract (*Conn).handleData(c, arg)
 //@   prop C02 C03 C04 C08
-//@   requires connInv(c) && !c.closed && !c.server.LMTP
-//@   modifies c.bdatPipe, c.bdatStatus, c.bytesReceived, c.fromReceived, c.recipients, c.replies, c.finals, c.lastCode, c.cbData, c.cbReset, c.bdatPipe.state, c.text.R.pos, c.text.R.iofail, c.text.R.unreadable
-//@   ensures inv: connInv(c) && !c.closed
-//@   ensures @C04 refusal-is-one-5xx: c.replies == old(c.replies) + 1 ==> c.finals == old(c.finals) + 1 && c.lastCode >= 500 && c.lastCode <= 599 && c.cbData == old(c.cbData) && c.cbReset == old(c.cbReset) && c.text.R.pos == old(c.text.R.pos)
-//@   ensures @C04 accepted-is-354-plus-one-final: c.replies != old(c.replies) + 1 ==> c.replies == old(c.replies) + 2 && c.finals == old(c.finals) + 1 && c.cbData == old(c.cbData) + 1
-//@   ensures @C03 out-of-order-refused: !old(c.fromReceived) || len(old(c.recipients)) == 0 || old(c.bdatPipe) != nil ==> c.replies == old(c.replies) + 1
-//@   ensures @C03 transaction-ends: c.replies == old(c.replies) + 2 ==> !c.fromReceived && len(c.recipients) == 0 && c.bdatPipe == nil && c.cbReset == old(c.cbReset) + 1
-//@   ensures @C02 resync: c.replies == old(c.replies) + 2 ==> dS(c.text.R.in, old(c.text.R.pos), c.text.R.pos) == 5 || c.text.R.iofail
-//@   ensures @C02 stream-only-forward: c.text.R.pos >= old(c.text.R.pos) && c.text == old(c.text) && c.text.R == old(c.text.R)
+//@   requires connInv(c) && !c.closed && c.server.ErrorLog != nil
+//@   modifies c.bdatPipe, c.bdatStatus, c.bytesReceived, c.fromReceived, c.recipients, c.replies, c.finals, c.lastCode, c.cbData, c.cbReset, c.bdatPipe.state, c.text.R.pos, c.text.R.iofail, c.text.R.unreadable, c.closed, c.session, c.cbLogout, c.session.loggedOut, *chan
+//@   ensures inv: connInv(c)
+//@   ensures @C04,C03 refusal-is-one-5xx-without-callback: !old(dataAccepted(c, arg)) ==> c.replies == old(c.replies) + 1 && c.finals == old(c.finals) + 1 && c.lastCode >= 500 && c.lastCode <= 599 && c.cbData == old(c.cbData) && c.cbReset == old(c.cbReset) && c.text.R.pos == old(c.text.R.pos) && c.fromReceived == old(c.fromReceived)
+//@   ensures @C04 accepted-is-354-plus-one-final: old(dataAccepted(c, arg)) && !c.server.LMTP ==> c.replies == old(c.replies) + 2 && c.finals == old(c.finals) + 1 && c.cbData == old(c.cbData) + 1
+//@   ensures @C04,C13 lmtp-accepted-is-354-plus-one-final-per-recipient: old(dataAccepted(c, arg)) && c.server.LMTP ==> c.replies == old(c.replies) + 1 + len(old(c.recipients)) && c.finals == old(c.finals) + len(old(c.recipients)) && (c.cbData == old(c.cbData) + 1 || c.closed)
+//@   ensures @C03 transaction-ends: c.cbData != old(c.cbData) ==> !c.fromReceived && len(c.recipients) == 0 && c.bdatPipe == nil && (c.cbReset == old(c.cbReset) + 1 || c.closed)
+//@   ensures @C02 resync: c.cbData != old(c.cbData) ==> dS(c.text.R.in, old(c.text.R.pos), c.text.R.pos) == 5 || c.text.R.iofail || c.closed
+//@   ensures @C02 stream-only-forward: (c.text.R.pos >= old(c.text.R.pos) || c.closed) && c.text == old(c.text) && c.text.R == old(c.text.R)
 
 // ---------------------------------------------------------------------------------------
 // Greeting, MAIL, RCPT
@@ -311,21 +311,25 @@ package smtp
 //@ contract (*Conn).handleBdat(c, arg)
 //@   prop C03 C04 C05 C06 C07 C08 C19
 //@   nooverflow Conn.bytesReceived + size: with MaxMessageBytes == 0 this needs fewer than 2^63 octets in one transaction
-//@   requires connInv(c) && !c.closed && !c.server.LMTP
+//@   requires connInv(c) && !c.closed && c.server.ErrorLog != nil
 //@   requires c.lineLimitReader.LineLimit == c.server.MaxLineLength
-//@   modifies c.bdatPipe, c.bdatStatus, c.dataResult, c.bytesReceived, c.fromReceived, c.recipients, c.replies, c.finals, c.lastCode, c.cbReset, c.closed, c.session, c.cbLogout, c.bdatPipe.state, c.bdatPipe.written, c.session.loggedOut, c.text.R.pos, c.text.R.iofail, c.text.R.unreadable, c.lineLimitReader.LineLimit, chan(c.dataResult)
+//@   modifies c.bdatPipe, c.bdatStatus, c.dataResult, c.bytesReceived, c.fromReceived, c.recipients, c.replies, c.finals, c.lastCode, c.cbReset, c.closed, c.session, c.cbLogout, c.bdatPipe.state, c.bdatPipe.written, c.session.loggedOut, c.text.R.pos, c.text.R.iofail, c.text.R.unreadable, c.lineLimitReader.LineLimit, *chan
 //@   onrecv errOK($v)
 //@   before (*io.PipeWriter).Close: @C07,C05 clean-eof-only-after-complete-last-chunk: last && lrOf(chunk).N == 0
 //@   ensures inv: connInv(c)
 //@   ensures @C19,C05 line-limit-restored: c.lineLimitReader.LineLimit == c.server.MaxLineLength && c.lineLimitReader == old(c.lineLimitReader)
 //@   ensures @C05 framing: bdatDeclaredOK(arg) ==> c.text.R.pos == old(c.text.R.pos) + bdatDeclared(arg) || c.text.R.iofail
 //@   ensures @C05 nothing-read-for-malformed-command: !bdatDeclaredOK(arg) ==> c.text.R.pos == old(c.text.R.pos)
-//@   ensures @C04 one-final-reply: c.finals == old(c.finals) + 1 && c.replies == old(c.replies) + 1
+//@   ensures @C04 one-final-reply: !c.server.LMTP ==> c.finals == old(c.finals) + 1 && c.replies == old(c.replies) + 1
+//@   ensures @C04,C13 lmtp-one-reply-or-one-per-recipient: c.server.LMTP ==> c.finals == old(c.finals) + 1 || (c.finals == old(c.finals) + len(old(c.recipients)) && nfields(arg) == 2 && len(old(c.recipients)) >= 1)
 //@   ensures @C03 out-of-order-refused: !old(c.fromReceived) || len(old(c.recipients)) == 0 ==> c.lastCode >= 500 && c.bdatPipe == nil && c.cbData == old(c.cbData)
 //@   ensures @C03 failed-chunk-ends-transaction: c.lastCode != 250 && old(c.fromReceived) && len(old(c.recipients)) > 0 && bdatDeclaredOK(arg) && !c.closed ==> !c.fromReceived && len(c.recipients) == 0 && c.bdatPipe == nil
 //@   ensures @C07 old-pipe-not-left-open: old(c.bdatPipe) != nil && c.bdatPipe != old(c.bdatPipe) ==> old(c.bdatPipe).state != 0
 //@   ensures @C06 accumulated-size-within-limit: c.server.MaxMessageBytes > 0 ==> c.bytesReceived <= c.server.MaxMessageBytes
 //@   ensures text-kept: c.text == old(c.text) && c.text.R == old(c.text.R)
+//@   loop 1:
+//@     invariant @C13,C04 replies-so-far: c.finals == old(c.finals) + rangeindex + 1 && rangeindex < len(c.recipients) && len(c.recipients) == len(old(c.recipients)) && c.server.LMTP
+//@     invariant c.bdatStatus != nil && len(c.bdatStatus.status) == len(c.recipients) && last && !c.closed
 
 // ---------------------------------------------------------------------------------------
 // Command dispatch and the command loop
@@ -333,9 +337,9 @@ package smtp
 
 //@ contract (*Conn).handle(c, cmd, arg)
 //@   prop C03 C04 C08 C19
-//@   requires connInv(c) && !c.closed && !c.server.LMTP
+//@   requires connInv(c) && !c.closed
 //@   requires c.lineLimitReader.LineLimit == c.server.MaxLineLength && c.server.ErrorLog != nil
-//@   modifies c.*, c.bdatPipe.state, c.bdatPipe.written, c.session.loggedOut, c.text.R.pos, c.text.R.iofail, c.text.R.unreadable, c.lineLimitReader.LineLimit, chan(c.dataResult), c.recipients[**]
+//@   modifies c.*, c.bdatPipe.state, c.bdatPipe.written, c.session.loggedOut, c.text.R.pos, c.text.R.iofail, c.text.R.unreadable, c.lineLimitReader.LineLimit, *chan, c.recipients[**]
 //@   ensures server-kept: c.server == old(c.server)
 //@   ensures inv: connInv(c)
 //@   ensures @C19 line-limit-active-after-every-command: c.text == old(c.text) ==> c.lineLimitReader.LineLimit == c.server.MaxLineLength
@@ -363,3 +367,35 @@ package smtp
 //@     invariant connInv(c) && c.server == s && s.conns != nil && !s.LMTP && s.ErrorLog != nil
 //@     invariant @C19 line-limit-active: c.lineLimitReader.LineLimit == s.MaxLineLength
 //@     invariant @C08 no-session-lost: c.cbNew - c.cbLogout == (c.session != nil ? 1 : 0)
+
+// ---------------------------------------------------------------------------------------
+// LMTP DATA
+// ---------------------------------------------------------------------------------------
+
+//@ contract (*Conn).handleDataLMTP$1()
+//@   prop C02 C03 C08 C13
+//@   requires c != nil && c.server != nil && c.conn != nil && c.server.ErrorLog != nil && status != nil && done != nil
+//@   requires r != nil && drInv(r) && lmtpSession != nil && sessCur(lmtpSession) && lmtpSession.conn == c && c.fromReceived && len(c.recipients) >= 1
+//@   modifies r.state, r.n, r.delivered, r.limited, r.r.pos, r.r.iofail, r.r.unreadable, c.cbData, *chan
+//@   ensures @C02 drained: r.state == 5 || r.r.iofail
+//@   ensures reader-consistent: drInv(r) && r.r.pos >= old(r.r.pos)
+//@   ensures @C03 one-data-callback: c.cbData == old(c.cbData) + 1
+
+//@ contract (*Conn).handleDataLMTP(c)
+//@   prop C02 C03 C04 C08 C13
+//@   requires connInv(c) && !c.closed && c.server.LMTP && c.fromReceived && len(c.recipients) >= 1 && c.server.ErrorLog != nil && c.bdatPipe == nil
+//@   modifies c.replies, c.finals, c.lastCode, c.cbData, c.text.R.pos, c.text.R.iofail, c.text.R.unreadable, c.closed, c.session, c.cbLogout, c.session.loggedOut, c.bdatPipe, c.bdatPipe.state, *chan
+//@   join done: (*Conn).handleDataLMTP$1
+//@   onrecv errOK($v)
+//@   ensures inv: connInv(c)
+//@   ensures @C02 resync: dS(c.text.R.in, old(c.text.R.pos), c.text.R.pos) == 5 || c.text.R.iofail || c.closed
+//@   ensures @C13,C04 one-final-reply-per-accepted-recipient: c.replies == old(c.replies) + len(c.recipients) && c.finals == old(c.finals) + len(c.recipients)
+//@   ensures @C03 one-data-callback: c.cbData == old(c.cbData) + 1 || c.closed
+//@   ensures c.cbData != old(c.cbData) || c.closed
+//@   ensures c.text.R.pos >= old(c.text.R.pos) || c.closed
+//@   ensures c.bdatPipe == nil
+//@   loop 1:
+//@     invariant status != nil && !wasalloc(status)
+//@   loop 2:
+//@     invariant status != nil && !wasalloc(status) && len(status.status) == len(c.recipients)
+//@     invariant @C13,C04 replies-so-far: c.replies == old(c.replies) + rangeindex + 1 && c.finals == old(c.finals) + rangeindex + 1 && rangeindex < len(c.recipients)
